@@ -83,6 +83,8 @@ var (
 	c36Fresh    = common.HexToAddress("0xf000000000000000000000000000000000003605")
 	c36WdAddr   = common.HexToAddress("0x3d00000000000000000000000000000000003607")
 	c36FeeRcpt  = common.HexToAddress("0xfe00000000000000000000000000000000003608")
+	c36Forwarder = common.HexToAddress("0xf300000000000000000000000000000000003609")
+	c36Sink     = common.HexToAddress("0x5100000000000000000000000000000000003610")
 )
 
 type c36Entry struct {
@@ -139,7 +141,7 @@ func c36NewWorld(t testing.TB, f c36Fork) *c36World {
 		alloc[addr] = acc
 	}
 	rich := new(big.Int).Mul(big.NewInt(1000), big.NewInt(params.Ether))
-	for i := 0; i < 12; i++ {
+	for i := 0; i < 14; i++ {
 		k := c36Key(i)
 		w.keys = append(w.keys, k)
 		w.addrs = append(w.addrs, crypto.PubkeyToAddress(k.PublicKey))
@@ -147,6 +149,15 @@ func c36NewWorld(t testing.TB, f c36Fork) *c36World {
 	}
 	authKey := c36Key(100)
 	authority := crypto.PubkeyToAddress(authKey.PublicKey)
+	// V: an externally owned account delegated (EIP-7702) in genesis to a forwarder
+	// that sends its whole balance away when called: from Prague on, a call of V by
+	// anybody makes V's own, pool-accepted transaction unaffordable in the same block.
+	vKey := c36Key(101)
+	vAddr := crypto.PubkeyToAddress(vKey.PublicKey)
+	forwarder := program.New().Push(0).Push(0).Push(0).Push(0).Op(vm.SELFBALANCE).Push(c36Sink).Op(vm.GAS, vm.CALL, vm.POP, vm.STOP).Bytes()
+	alloc[c36Forwarder] = types.Account{Code: forwarder, Nonce: 1, Balance: common.Big0}
+	alloc[c36Sink] = types.Account{Balance: big.NewInt(1)}
+	alloc[vAddr] = types.Account{Code: types.AddressToDelegation(c36Forwarder), Balance: big.NewInt(10_000_000_000_000_000)}
 	revert := program.New().Sstore(0, 1).Push(0).Push(0).Op(vm.REVERT).Bytes()
 	loop := program.New().Op(vm.JUMPDEST).Sstore(0, 1).Jump(0).Bytes()
 	adder := program.New().Push(0).Op(vm.SLOAD).Push(1).Op(vm.ADD).Push(0).Op(vm.SSTORE).Push(0).Push(0).Op(vm.LOG0, vm.STOP).Bytes()
@@ -196,6 +207,11 @@ func c36NewWorld(t testing.TB, f c36Fork) *c36World {
 		{"SETCODE", setcode, "prague"},
 		{"CREATE", dyn(9, 0, nil, 0, 3_000_000, 2, initcode), "always"},
 		{"WREQ", dyn(11, 0, &params.WithdrawalQueueAddress, 1, 1_000_000, 10, wreq), "always"},
+		// a transaction that is valid at the head state (the pool accepts it) but whose sender is drained by an
+		// earlier, better paying transaction of the same block, and a cheap transaction of a third sender behind it
+		{"DRAIN_V", dyn(12, 0, &vAddr, 0, 1_000_000, 7, nil), "always"},
+		{"V_TX", types.MustSignNewTx(vKey, w.signer, &types.DynamicFeeTx{ChainID: chainID, Nonce: 0, To: &c36Fresh, Value: big.NewInt(3), Gas: 100_000, GasFeeCap: gwei(10), GasTipCap: big.NewInt(5_500_000_000)}), "unless-prague:DRAIN_V"},
+		{"TAIL", dyn(13, 0, &w.addrs[1], 2, 1_000_000, 1, nil), "always"},
 	}
 	w.node, w.eth = startEthService(t, w.gspec, nil, func(c *ethconfig.Config) {
 		c.Miner = miner.Config{GasCeil: 30_000_000, GasPrice: big.NewInt(1), Recommit: time.Hour}
@@ -231,7 +247,7 @@ func c36Subsets(n, maxSize int) [][]int {
 func TestVerif_C36_engine(t *testing.T) {
 	mc.Run(t, "C36", func(r *mc.R) {
 		maxSize := mc.Pick(r, 3, 4)
-		r.Rule("rule sets {cancun, prague, osaka, amsterdam} x 2 payload-attribute combinations x every subset of <= max_pool_size transactions of a 10-entry alphabet added to the real pools of a full eth service; " +
+		r.Rule("rule sets {cancun, prague, osaka, amsterdam} x 2 payload-attribute combinations x every subset of <= max_pool_size transactions of a 13-entry alphabet added to the real pools of a full eth service; " +
 			"ForkchoiceUpdated(head=genesis, attributes) -> full payload -> NewPayload of the fork's version; distinct = distinct payload block hashes")
 		r.Bound("max_pool_size", maxSize)
 		r.Assume("one eth.Ethereum service per rule set, head stays at genesis, prevRandao unique per case; the transaction pools are the real legacypool and blobpool (blob sidecars with valid KZG commitments/proofs)")
@@ -466,6 +482,8 @@ func (w *c36World) check(r *mc.R, a c36Attrs, subset []int, names []string) erro
 			ok = w.fork.osaka
 		case len(e.includable) > 6 && e.includable[:6] == "after:":
 			ok = inPool[e.includable[6:]]
+		case len(e.includable) > 14 && e.includable[:14] == "unless-prague:":
+			ok = !(w.fork.prague && inPool[e.includable[14:]])
 		}
 		if ok {
 			expected++
